@@ -38,7 +38,7 @@ func init() {
 	for _, n := range simhook.ProbeNames {
 		pn = append(pn, n)
 	}
-	pn = append(pn, "same-type-first-used-by-2+-tasks", "type-nested-in-another-tasks-type", "recursive-type", "map-field-type(proto structPool)", "anymap-of-fresh-types", "ops", "typeof-identity-checked", "result-stability-checked", "steady-state-rechecked", "corrupted-input-ops", "case-changed-keys", "marshal-output>64KiB", "caches-prewarmed-with-many-types")
+	pn = append(pn, "same-type-first-used-by-2+-tasks", "type-nested-in-another-tasks-type", "recursive-type", "map-field-type(proto structPool)", "anymap-of-fresh-types", "ops", "typeof-identity-checked", "result-stability-checked", "steady-state-rechecked", "corrupted-input-ops", "case-changed-keys", "marshal-output>64KiB", "marshal-of-a-map-with-127..300-keys", "caches-prewarmed-with-many-types")
 	core.Register(&core.Property{
 		ID: "C09", Level: "exploration", Engine: "sched", Race: true, Sched: true,
 		Quick: 60000, Thorough: 3000000,
@@ -103,6 +103,8 @@ type c09Op struct {
 	caseChanged bool
 	// big: a Marshal whose output exceeds 64 KiB
 	big bool
+	// bigMap: a Marshal of a map with 127..300 keys
+	bigMap bool
 }
 
 type c09Res struct {
@@ -294,6 +296,42 @@ func c09Prewarm(n int) {
 	}
 }
 
+// c09Theme is the theme of the run being generated (one run at a time per process).
+var c09Theme int
+
+var c09BigMaps = map[[2]int]reflect.Value{}
+
+// c09BigMap returns a pointer to a map with n string keys (kind 0: any values,
+// 1: strings, 2: bools), built once per process and only ever read.
+func c09BigMap(kind, n int) reflect.Value {
+	if v, ok := c09BigMaps[[2]int{kind, n}]; ok {
+		return v
+	}
+	var v reflect.Value
+	switch kind {
+	case 0:
+		m := map[string]any{}
+		for i := 0; i < n; i++ {
+			m[fmt.Sprintf("key-%04d", (i*7919)%n)] = []any{i, "v", true, nil}[i%4]
+		}
+		v = reflect.ValueOf(&m)
+	case 1:
+		m := map[string]string{}
+		for i := 0; i < n; i++ {
+			m[fmt.Sprintf("key-%04d", (i*7919)%n)] = fmt.Sprint(i)
+		}
+		v = reflect.ValueOf(&m)
+	default:
+		m := map[string]bool{}
+		for i := 0; i < n; i++ {
+			m[fmt.Sprintf("key-%04d", (i*7919)%n)] = i%3 == 0
+		}
+		v = reflect.ValueOf(&m)
+	}
+	c09BigMaps[[2]int{kind, n}] = v
+	return v
+}
+
 var c09BigStrings = map[int]*string{}
 
 func c09BigString(n int) *string {
@@ -408,6 +446,12 @@ func c09MakeOp(t *tape.Tape, ty *simType, pool []*simType) *c09Op {
 		vg.MaxMap = 1
 	}
 	op := &c09Op{ty: ty}
+	if c09Theme == 1 && t.Chance(2, 3) {
+		op.kind = opJSONMarshal
+		op.val = c09BigMap(t.Intn(3), []int{127, 128, 129, 200, 300}[t.Intn(5)])
+		op.bigMap = true
+		return op
+	}
 	switch ty.codec {
 	case gen.JSON:
 		op.kind = []int{opJSONMarshal, opJSONAppend, opJSONUnmarshal, opJSONParse, opJSONEncoder, opJSONDecoder, opJSONTokenizer, opJSONMarshalAnyMap, opJSONMarshal, opJSONUnmarshal, opJSONTokenizerReuse, opJSONEncoder}[t.Intn(12)]
@@ -417,6 +461,11 @@ func c09MakeOp(t *tape.Tape, ty *simType, pool []*simType) *c09Op {
 			// threshold a shortcut could be tied to)
 			op.val = reflect.ValueOf(c09BigString([]int{66000, 100000, 150000, 200000, 65534}[t.Intn(5)]))
 			op.big = true
+		}
+		if op.kind == opJSONMarshal && !op.big && t.Chance(1, 25) {
+			// a map with enough keys for the sort scratch to matter (and to outgrow it)
+			op.val = c09BigMap(t.Intn(3), []int{127, 128, 129, 200, 300}[t.Intn(5)])
+			op.bigMap = true
 		}
 		switch op.kind {
 		case opJSONAppend:
@@ -611,6 +660,11 @@ func runC09(r *core.Run) {
 	simhook.TakeProbes()
 	simhook.TakeViolation()
 
+	// swarm: some runs have a theme (several operations of one rare kind meet)
+	c09Theme = 0
+	if t.Chance(1, 30) {
+		c09Theme = 1 // marshals of maps with 127..300 keys
+	}
 	pool := c09Types(t)
 	ntasks := t.Range(2, 6)
 	maxOps := 4
@@ -640,6 +694,9 @@ func runC09(r *core.Run) {
 			}
 			if op.big {
 				r.Probe("marshal-output>64KiB")
+			}
+			if op.bigMap {
+				r.Probe("marshal-of-a-map-with-127..300-keys")
 			}
 			tasks[i] = append(tasks[i], op)
 			nops++
